@@ -183,3 +183,32 @@ def instance(pep, held=(), tol=1e-6, solver_G=None, solver_F=None):
         if P2.shape != P.shape or np.abs(P2 - P).max(initial=0.0) > 0:
             probs.append(("instance:leaves-changed-by-eval", "evaluating derived objects changed the values of leaf points"))
     return probs
+
+
+def wrapper_duals(pep, tol=1e-9):
+    """The wrapper's documented accessor get_dual_variables() must report, for the constraint list it was sent, the very
+    multipliers that are attached to the constraints / LMIs (and the residual the PEP exposes) - whatever was solved last."""
+    from PEPit.constraint import Constraint
+    probs = []
+    w = pep.wrapper
+    try:
+        dv, res = w.get_dual_variables()
+    except Exception as e:
+        return [("wrapper-duals:raised:%s" % type(e).__name__, str(e)[:120])]
+    sent = list(w._list_of_constraints_sent_to_solver)
+    if len(dv) != len(sent) + 1:
+        return [("wrapper-duals:length", "%d dual values reported for %d constraints sent (+ the Gram constraint)" % (len(dv), len(sent)))]
+    worst = 0.0
+    for obj, val in zip(sent, dv[1:]):
+        try:
+            att = obj.eval_dual()
+        except Exception:
+            continue
+        worst = max(worst, float(np.abs(np.asarray(att, float) - np.asarray(val, float)).max(initial=0.0)))
+    if worst > tol:
+        probs.append(("wrapper-duals:differ", "get_dual_variables() differs from the multipliers attached to the constraints by %.3g" % worst))
+    if pep.residual is not None and res is not None:
+        dres = float(np.abs(np.asarray(res, float) - np.asarray(pep.residual, float)).max(initial=0.0))
+        if dres > tol:
+            probs.append(("wrapper-duals:residual-differs", "the wrapper's residual differs from PEP.residual by %.3g" % dres))
+    return probs
